@@ -65,6 +65,7 @@ func (c *compression) compress(req *http.Request, resp *http.Response) bool {
 	}
 
 	resp.Header.Del(keyContentLength)
+	resp.ContentLength = -1
 	resp.Header.Set(keyContentEncoding, "gzip")
 	resp.Header.Add(keyVary, keyContentEncoding)
 
